@@ -20,7 +20,8 @@ def register(m):
     m("C03", "c03-counter-not-incremented", IDG, "id_val = 1 if id_val is None else id_val + 1", "id_val = 1 if id_val is None else id_val", "I3")
     m("C03", "c03-counter-clear-fn", IDG, "def last_id(base: str) -> int:", "def reset_ids() -> None:\n    _ids.clear()\n\n\ndef last_id(base: str) -> int:", "I3")
     m("C03", "c03-wrapper-alias", AVG, "average_kinetic_energy = Average(symbols.kinetic_energy)",
-      "average_kinetic_energy = Average(symbols.kinetic_energy)\n_other = Average(clone_as_symbol(symbols.kinetic_energy))", "I4")
+      "average_kinetic_energy = Average(symbols.kinetic_energy)\n_other = Average(clone_as_symbol(symbols.kinetic_energy))", "SILENT",
+      note="harmless since fix 6afdd9a: wrappers are told apart by their argument, not by its display string")
     m("C03", "c03-reorder-imports-ok", A, "from sympy import (Eq, solve)\n", "", "SILENT",
       extra=[(A, "from symplyphysics.core.expr_comparisons import expr_equals", "from symplyphysics.core.expr_comparisons import expr_equals\nfrom sympy import (Eq, solve)", 1)])
 
